@@ -65,7 +65,7 @@ def make_case(rng):
     for li in range(nlists):
         items = [rand_item(rng) for _ in range(n)]
         lists.append({'items': [it[0] for it in items], 'alts': [it[1] for it in items],
-                      'credit': rng.choice([1, 1, 0.5, 0.7]), 'msg': rng.choice(['', 'LISTMSG%d' % li, 'LONGER-LISTMSG%d' % li])})
+                      'credit': rng.choice([1, 1, 0.5, 0.7, 0]), 'msg': rng.choice(['', 'LISTMSG%d' % li, 'LONGER-LISTMSG%d' % li])})
     if nlists > 1 and rng.random() < 0.4:
         # same credit and message for all lists, so that they can be given as one answer with an expect tuple
         for l in lists[1:]:
